@@ -555,14 +555,14 @@ mod verif_playback {
 /// Check for `assertion`: ""address type id that does not fit its 2-bit field accepted""
 
 #[test]
-fn kani_concrete_playback_c03_size_gate_raw_src_16299879656332076597() {
+fn kani_concrete_playback_c03_size_gate_raw_src_6613412771615663045() {
     let concrete_vals: Vec<Vec<u8>> = vec![
-        // 1ul
-        vec![1, 0, 0, 0, 0, 0, 0, 0],
+        // 0ul
+        vec![0, 0, 0, 0, 0, 0, 0, 0],
         // 0
         vec![0],
-        // 6
-        vec![6],
+        // 3
+        vec![3],
         // 1
         vec![1],
         // 255
@@ -643,26 +643,26 @@ fn kani_concrete_playback_c03_size_gate_raw_src_16299879656332076597() {
         vec![255],
         // 255
         vec![255],
-        // 0
-        vec![0],
-        // 0
-        vec![0],
-        // 128
-        vec![128, 0],
-        // 0
-        vec![0, 0],
-        // 0
-        vec![0],
-        // 0
-        vec![0],
-        // 0
-        vec![0],
-        // 0
-        vec![0],
-        // 0
-        vec![0],
-        // 0
-        vec![0],
+        // 255
+        vec![255],
+        // 255
+        vec![255],
+        // 65532
+        vec![252, 255],
+        // 65535
+        vec![255, 255],
+        // 255
+        vec![255],
+        // 255
+        vec![255],
+        // 255
+        vec![255],
+        // 255
+        vec![255],
+        // 255
+        vec![255],
+        // 255
+        vec![255],
     ];
     let mut concrete_vals = concrete_vals;
     concrete_vals.extend(std::iter::repeat(vec![0u8]).take(8192));
@@ -674,114 +674,114 @@ fn kani_concrete_playback_c03_size_gate_raw_src_16299879656332076597() {
 /// Check for `cover`: "oversize payload rejected"
 
 #[test]
-fn kani_concrete_playback_c03_size_gate_raw_src_14668482090671374971() {
+fn kani_concrete_playback_c03_size_gate_raw_src_2631642139643983168() {
     let concrete_vals: Vec<Vec<u8>> = vec![
-        // 65793ul
-        vec![1, 1, 1, 0, 0, 0, 0, 0],
+        // 131072ul
+        vec![0, 0, 2, 0, 0, 0, 0, 0],
         // 0
         vec![0],
-        // 3
-        vec![3],
+        // 5
+        vec![5],
         // 1
         vec![1],
-        // 255
-        vec![255],
-        // 255
-        vec![255],
+        // 253
+        vec![253],
+        // 253
+        vec![253],
         // 1179647
         vec![255, 255, 17, 0],
-        // 18446744073709551615ul
-        vec![255, 255, 255, 255, 255, 255, 255, 255],
-        // 18446744073709551615ul
-        vec![255, 255, 255, 255, 255, 255, 255, 255],
-        // 255
-        vec![255],
-        // 1
-        vec![1],
+        // 18302063728033398269ul
+        vec![253, 253, 253, 253, 253, 253, 253, 253],
+        // 18302063728033398269ul
+        vec![253, 253, 253, 253, 253, 253, 253, 253],
+        // 253
+        vec![253],
+        // 2
+        vec![2],
+        // 4
+        vec![4],
+        // 253
+        vec![253],
         // 0
         vec![0],
-        // 255
-        vec![255],
-        // 255
-        vec![255],
-        // 255
-        vec![255],
-        // 255
-        vec![255],
-        // 255
-        vec![255],
-        // 255
-        vec![255],
-        // 255
-        vec![255],
-        // 255
-        vec![255],
-        // 255
-        vec![255],
-        // 255
-        vec![255],
-        // 255
-        vec![255],
-        // 255
-        vec![255],
-        // 255
-        vec![255],
-        // 255
-        vec![255],
-        // 255
-        vec![255],
-        // 255
-        vec![255],
-        // 255
-        vec![255],
-        // 255
-        vec![255],
-        // 255
-        vec![255],
-        // 65535
-        vec![255, 255],
-        // 4294967295
-        vec![255, 255, 255, 255],
-        // 255
-        vec![255],
-        // 255
-        vec![255],
-        // 65535
-        vec![255, 255],
-        // 65535
-        vec![255, 255],
-        // 255
-        vec![255],
-        // 255
-        vec![255],
-        // 255
-        vec![255],
-        // 255
-        vec![255],
-        // 255
-        vec![255],
-        // 255
-        vec![255],
-        // 1
-        vec![1],
-        // 0
-        vec![0],
-        // 128
-        vec![128, 0],
-        // 0
-        vec![0, 0],
-        // 0
-        vec![0],
-        // 0
-        vec![0],
-        // 0
-        vec![0],
-        // 0
-        vec![0],
-        // 1
-        vec![1],
-        // 0
-        vec![0],
+        // 253
+        vec![253],
+        // 253
+        vec![253],
+        // 253
+        vec![253],
+        // 253
+        vec![253],
+        // 253
+        vec![253],
+        // 253
+        vec![253],
+        // 253
+        vec![253],
+        // 253
+        vec![253],
+        // 253
+        vec![253],
+        // 253
+        vec![253],
+        // 253
+        vec![253],
+        // 253
+        vec![253],
+        // 253
+        vec![253],
+        // 253
+        vec![253],
+        // 253
+        vec![253],
+        // 253
+        vec![253],
+        // 253
+        vec![253],
+        // 65021
+        vec![253, 253],
+        // 4261281277
+        vec![253, 253, 253, 253],
+        // 253
+        vec![253],
+        // 253
+        vec![253],
+        // 65021
+        vec![253, 253],
+        // 65021
+        vec![253, 253],
+        // 253
+        vec![253],
+        // 253
+        vec![253],
+        // 253
+        vec![253],
+        // 253
+        vec![253],
+        // 253
+        vec![253],
+        // 253
+        vec![253],
+        // 253
+        vec![253],
+        // 253
+        vec![253],
+        // 65022
+        vec![254, 253],
+        // 65022
+        vec![254, 253],
+        // 249
+        vec![249],
+        // 249
+        vec![249],
+        // 253
+        vec![253],
+        // 29
+        vec![29],
+        // 253
+        vec![253],
+        // 253
+        vec![253],
     ];
     let mut concrete_vals = concrete_vals;
     concrete_vals.extend(std::iter::repeat(vec![0u8]).take(8192));
@@ -793,22 +793,22 @@ fn kani_concrete_playback_c03_size_gate_raw_src_14668482090671374971() {
 /// Check for `cover`: "largest payload accepted"
 
 #[test]
-fn kani_concrete_playback_c03_size_gate_raw_src_8567565462906247795() {
+fn kani_concrete_playback_c03_size_gate_raw_src_6904572370515531359() {
     let concrete_vals: Vec<Vec<u8>> = vec![
         // 65535ul
         vec![255, 255, 0, 0, 0, 0, 0, 0],
         // 0
         vec![0],
-        // 3
-        vec![3],
+        // 1
+        vec![1],
         // 0
         vec![0],
         // 255
         vec![255],
         // 255
         vec![255],
-        // 1048575
-        vec![255, 255, 15, 0],
+        // 131071
+        vec![255, 255, 1, 0],
         // 18446744073709551615ul
         vec![255, 255, 255, 255, 255, 255, 255, 255],
         // 18446744073709551615ul
@@ -817,18 +817,16 @@ fn kani_concrete_playback_c03_size_gate_raw_src_8567565462906247795() {
         vec![255],
         // 0
         vec![0],
+        // 4
+        vec![4],
+        // 253
+        vec![253],
         // 0
         vec![0],
-        // 255
-        vec![255],
-        // 3
-        vec![3],
-        // 255
-        vec![255],
-        // 255
-        vec![255],
-        // 255
-        vec![255],
+        // 17
+        vec![17],
+        // 0
+        vec![0],
         // 255
         vec![255],
         // 255
@@ -863,7 +861,7 @@ fn kani_concrete_playback_c03_size_gate_raw_src_8567565462906247795() {
 }
 
 // native replay (full trace; cargo kani playback, dev profile, real code):
-//   kani_concrete_playback_c03_size_gate_raw_src_16299879656332076597: reproduced (address type id that does not fit its 2-bit field accepted)
-//   kani_concrete_playback_c03_size_gate_raw_src_14668482090671374971: did not reproduce (cover:oversize payload rejected)
-//   kani_concrete_playback_c03_size_gate_raw_src_8567565462906247795: did not reproduce (cover:largest payload accepted)
+//   kani_concrete_playback_c03_size_gate_raw_src_6613412771615663045: reproduced (address type id that does not fit its 2-bit field accepted)
+//   kani_concrete_playback_c03_size_gate_raw_src_2631642139643983168: did not reproduce (cover:oversize payload rejected)
+//   kani_concrete_playback_c03_size_gate_raw_src_6904572370515531359: did not reproduce (cover:largest payload accepted)
 // re-run: bin/check C03 --replay /verif/replays/C03/c03_size_gate_raw_src.rs
